@@ -237,6 +237,9 @@ func EncodeOp(e *renc, m *Model, w *Window, op Op, force bool) error {
 	}
 	switch op.K {
 	case OpLit:
+		if op.Near != 0 && int64(m.Rep[0])+1 <= pos {
+			op.B = w.byteAt(int64(m.Rep[0])+1) ^ []byte{0, 0, 1, 0x80, 0x10}[op.Near]
+		}
 		e.bit(&m.isMatch[st][posState], 0)
 		probs := m.litProbs(pos, w.byteAt(1))
 		sym := uint32(op.B) | 0x100
